@@ -1691,7 +1691,7 @@ def check_C13(tier, seed, replay=None):
     odd += [nest(b"(", b")", 40), nest(b"( ", b" )", 25), nest(b"(", b")*", 30), nest(b"&(", b")", 30), nest(b"!(", b")?", 30), nest(b"l:(", b")", 30),
             nest(b"('b' / ", b")", 30), nest(b"('b' ", b" 'c')", 30), nest(b"(", b" //{e} 'r')", 30), nest(b"(", b" { return 1, nil })", 30),
             b"A <- 'a' { " + b"{" * 300 + b"}" * 300 + b" return nil, nil }\n", b"A <- " + b" / ".join(b"'a%d'" % i for i in range(1500)) + b"\n",
-            b"A <- " + b" ".join(b"'a'" for i in range(3000)) + b"\n", b"".join(b"R%d <- R%d 'x' / 'y'\n" % (i, i + 1) for i in range(400)) + b"R400 <- 'z'\n",
+            b"A <- " + b" ".join(b"'a'" for i in range(3000)) + b"\n", b"".join(b"R%d <- R%d 'x' / 'y'\n" % (i, i + 1) for i in range(120)) + b"R120 <- 'z'\n",      # (the optimizer is cubic in such a chain: 400 rules take a minute)
             b"A <- [" + b"a-z" * 500 + b"]\n", b"A <- \"" + b"\\u00e9" * 2000 + b"\"\n"]
     for o in odd:
         texts.append(("odd", head + o))
